@@ -26,6 +26,95 @@ Proof.
   intros. unfold mark. destruct (is_dup s rl r); [assumption|]. unfold is_dup in *. simpl. rewrite H. apply orb_true_r.
 Qed.
 
+
+Lemma is_dup_set_timer : forall s t rl r, is_dup (set_timer s t) rl r = is_dup s rl r. Proof. reflexivity. Qed.
+Lemma is_dup_set_cfr : forall s t rl r, is_dup (set_cfr s t) rl r = is_dup s rl r. Proof. reflexivity. Qed.
+Lemma is_dup_set_buffer : forall s t rl r, is_dup (set_buffer s t) rl r = is_dup s rl r. Proof. reflexivity. Qed.
+Lemma is_dup_set_ppj : forall s t rl r, is_dup (set_ppj s t) rl r = is_dup s rl r. Proof. reflexivity. Qed.
+Lemma is_dup_set_input : forall s t rl r, is_dup (set_input s t) rl r = is_dup s rl r. Proof. reflexivity. Qed.
+Lemma is_dup_set_prepared : forall s a b c rl r, is_dup (set_prepared s a b c) rl r = is_dup s rl r. Proof. reflexivity. Qed.
+Lemma is_dup_set_decided : forall s a b rl r, is_dup (set_decided s a b) rl r = is_dup s rl r. Proof. reflexivity. Qed.
+Lemma is_dup_set_resends : forall s a rl r, is_dup (set_resends s a) rl r = is_dup s rl r. Proof. reflexivity. Qed.
+Lemma is_dup_set_dead : forall s rl r, is_dup (set_dead s) rl r = is_dup s rl r. Proof. reflexivity. Qed.
+Lemma is_dup_set_started : forall s rl r, is_dup (set_started s) rl r = is_dup s rl r. Proof. reflexivity. Qed.
+Global Hint Rewrite is_dup_set_timer is_dup_set_cfr is_dup_set_buffer is_dup_set_ppj is_dup_set_input is_dup_set_prepared
+  is_dup_set_decided is_dup_set_resends is_dup_set_dead is_dup_set_started : st.
+Global Hint Resolve is_dup_mark_same is_dup_mark_mono : core.
+
+Ltac rule_facts2 :=
+  match goal with E : existsb (rule_eqb ?rl) (rules_of ?p ?s ?m) && negb (is_dup _ _ _) = true |- _ =>
+    let Hr := fresh "Hr" in let Hnd := fresh "Hnd" in
+    apply andb_true_iff in E; destruct E as [Hr Hnd]; apply rules_of_inv in Hr; simpl in Hr;
+    apply negb_true_iff in Hnd end.
+Ltac eqb_conv :=
+  repeat match goal with
+  | H : (_ =? _) = true |- _ => apply Nat.eqb_eq in H
+  | H : (_ =? _) = false |- _ => apply Nat.eqb_neq in H
+  end.
+
+Lemma fplus1_ok_lt : forall p all cur new, fplus1_ok p all cur new = true -> cur < new.
+Proof. intros p all cur new H. unfold fplus1_ok in H. apply andb_true_iff in H. destruct H as [H _]. apply Nat.ltb_lt. exact H. Qed.
+
+Ltac prep_facts :=
+  repeat match goal with
+  | H : _ /\ _ |- _ => destruct H
+  | H : fplus1_ok _ _ _ _ && _ = true |- _ =>
+      let H1 := fresh "Hfp" in apply andb_true_iff in H; destruct H as [H1 H]; apply fplus1_ok_lt in H1
+  end.
+
+Lemma justified_decided_nonempty : forall p m c, 1 <= nodes p -> justified p m c = true -> ty (main m) = Decided -> just m <> [].
+Proof.
+  intros p m c Hn H Hty E. unfold justified in H. rewrite Hty in H. unfold justified_decided in H. rewrite E in H.
+  pose proof (quorum_pos (nodes p) Hn) as Hq. fold (qn p) in Hq. apply Nat.leb_le in H. unfold nsrc in H. simpl in H. lia.
+Qed.
+
+Lemma is_dup_set_round : forall s r rl r', is_dup (set_round s r) rl r' = false.
+Proof. reflexivity. Qed.
+
+(* What one step does to the components the agreement argument looks at. *)
+Definition effects (p : params) (s s' : state) (outs : list output) : Prop :=
+  length (bc_mains outs) <= 1 /\
+  (forall b, In b (bc_mains outs) -> src b = self p) /\
+  (decided s = true -> decided s' = true /\ prepR s' = prepR s /\ prepV s' = prepV s /\ round s' = round s /\
+        forall b, In b (bc_mains outs) -> ty b = Decided \/ ty b = PrePrepare) /\
+  (decided s' = false -> round s <= round s') /\
+  (decided s' = false -> round s' = round s -> forall rl r, is_dup s rl r = true -> is_dup s' rl r = true) /\
+  (forall b, In b (bc_mains outs) -> ty b = Prepare ->
+       decided s = false /\ rnd b = round s' /\ is_dup s' JustPrePrepare (rnd b) = true
+       /\ (round s < round s' \/ is_dup s JustPrePrepare (rnd b) = false)) /\
+  (forall b, In b (bc_mains outs) -> ty b = Commit ->
+       decided s = false /\ rnd b = round s /\ round s' = round s /\ is_dup s' QPrepares (rnd b) = true
+       /\ is_dup s QPrepares (rnd b) = false /\ prepR s' = rnd b /\ prepV s' = val b) /\
+  (forall b, In b (bc_mains outs) -> ty b = RoundChange ->
+       decided s = false /\ rnd b = round s' /\ round s < round s' /\ pr b = prepR s /\ pv b = prepV s) /\
+  ((exists b, In b (bc_mains outs) /\ ty b = Commit) \/ (prepR s' = prepR s /\ prepV s' = prepV s)) /\
+  (decided s = false -> decided s' = true -> bc_mains outs = []) /\
+  (decided s' = false -> 1 <= round s -> 1 <= round s').
+
+Ltac split_in :=
+  repeat match goal with
+  | H : In _ (_ ++ _) |- _ => apply in_app_or in H; destruct H as [H|H]
+  | H : In _ (_ :: _) |- _ => destruct H as [H|H]; [subst|]
+  | H : In _ [] |- _ => contradiction H
+  | H : _ \/ False |- _ => destruct H as [H|[]]
+  end.
+
+Ltac fin := intros; split_in; subst; simpl in *; try discriminate; try congruence; try lia; try (autorewrite with st in *; simpl in *; eauto 6; try lia).
+
+Lemma fstep_effects : forall p s e o s' outs, 1 <= nodes p -> inv p s -> fstep p s e o = Some (s', outs) -> effects p s s' outs.
+Proof.
+  intros p s e o s' outs Hn Hinv H. unfold effects. pose proof (i_timer p s Hinv) as Itimer. clear Hinv.
+  destruct e.
+  - crush_fstep H; simpl; repeat split; st; fin.
+  - crush_fstep H; simpl; repeat split; st; fin.
+  - crush_fstep H; try rule_facts2; eqb_conv; prep_facts; rewrite ?bc_mains_app; simpl; repeat split; st; fin.
+    all: try (exfalso; apply negb_false_iff in Heqb1;
+              apply (justified_decided_nonempty p m (cfr s) Hn Heqb1 Hr); destruct (just m); [reflexivity | discriminate]).
+  - crush_fstep H; rewrite ?bc_mains_app; simpl.
+    destruct (decided s) eqn:Hd; [specialize (Itimer eq_refl); congruence|].
+    repeat split; st; fin.
+Qed.
+
 Record linv (p : params) (s : state) (log : list bmsg) : Prop := mklinv {
   l_src : forall b, In b log -> src b = self p;
   l_round1 : decided s = false -> 1 <= round s;
@@ -45,22 +134,80 @@ Record linv (p : params) (s : state) (log : list bmsg) : Prop := mklinv {
 Lemma linv_init : forall p, linv p init [].
 Proof. intro p. constructor; simpl; intros; try contradiction; try lia. Qed.
 
-Ltac split_in :=
-  repeat match goal with
-  | H : In _ (_ ++ _) |- _ => apply in_app_or in H; destruct H as [H|H]
-  | H : In _ (_ :: _) |- _ => destruct H as [H|H]; [subst|]
-  | H : In _ [] |- _ => contradiction H
-  end.
-
-Ltac fin := intros; split_in; simpl in *; try discriminate; try congruence; eauto; try lia.
-
-Lemma linv_fstep : forall p s e o s' outs log,
-  linv p s log -> fstep p s e o = Some (s', outs) -> linv p s' (log ++ bc_mains outs).
+Lemma linv_effects : forall p s s' outs log, linv p s log -> effects p s s' outs -> linv p s' (log ++ bc_mains outs).
 Proof.
-  intros p s e o s' outs log [L1 L2 L3 L4 L5 L6 L7 L8 L9 L10] H.
-  destruct e.
-  - crush_fstep H; simpl; rewrite app_nil_r; constructor; st; auto.
-  - crush_fstep H; simpl; rewrite ?app_nil_r; constructor; st; auto; fin.
-  - crush_fstep H; rewrite ?bc_mains_app; simpl; rewrite ?app_nil_r; constructor; st; auto; fin.
-    all: idtac "goal". Show 1. Show 2. Show 3.
-Abort.
+  intros p s s' outs log [L1 L2 L3 L4 L5 L6 L7 L8 L9 L10] E.
+  destruct E as [E1 [E2 [E3 [E4 [E5 [E6 [E7 [E8 [E9 [E10 E11]]]]]]]]]].
+  set (B := bc_mains outs) in *.
+  assert (HB : B = [] \/ exists x, B = [x]).
+  { destruct B as [|x [|y B']]; [left; reflexivity | right; exists x; reflexivity | simpl in E1; lia]. }
+  destruct (decided s) eqn:Hd.
+  - (* already decided *)
+    destruct (E3 eq_refl) as [Hd' [Hpr [Hpv [Hrd Hty]]]].
+    assert (Hnp : forall b, In b B -> ty b <> Prepare /\ ty b <> Commit /\ ty b <> RoundChange).
+    { intros b Hb. destruct (Hty b Hb) as [T|T]; rewrite T; repeat split; discriminate. }
+    constructor; intros; try (rewrite Hd' in *; discriminate).
+    + apply in_app_or in H. destruct H; auto.
+    + apply in_app_or in H, H0. destruct H as [H|H]; [|destruct (Hnp b H); tauto].
+      destruct H0 as [H0|H0]; [|destruct (Hnp b' H0); tauto]. eauto.
+    + apply in_app_or in H, H0. destruct H as [H|H]; [|destruct (Hnp b H); tauto].
+      destruct H0 as [H0|H0]; [|destruct (Hnp b' H0); tauto]. eauto.
+    + apply in_app_or in H. destruct H as [H|H]; [|destruct (Hnp b H); tauto]. rewrite Hpr, Hpv. auto.
+    + apply in_app_or in H, H0. destruct H as [H|H]; [|destruct (Hnp c H); tauto].
+      destruct H0 as [H0|H0]; [|destruct (Hnp b H0); tauto]. eauto.
+  - destruct (decided s') eqn:Hd'.
+    + (* this step decides: nothing is broadcast *)
+      rewrite (E10 eq_refl eq_refl) in *. rewrite app_nil_r.
+      destruct E9 as [[b [Hb _]]|[Hpr Hpv]]; [contradiction|].
+      constructor; intros; try discriminate; eauto. rewrite Hpr, Hpv. auto.
+    + (* ordinary step before the decision *)
+      specialize (E4 eq_refl). specialize (E5 eq_refl). specialize (E11 eq_refl (L2 eq_refl)).
+      specialize (L8 eq_refl).
+      constructor; intros; auto.
+      * apply in_app_or in H. destruct H; auto.
+      * apply in_app_or in H. destruct H as [H|H].
+        -- destruct (L3 b H H0 eq_refl) as [Hlt|[Heq Hdup]]; [left; lia|].
+           destruct (Nat.eq_dec (round s') (round s)) as [Er|Er]; [right; split; [lia | apply E5; auto] | left; lia].
+        -- destruct (E6 b H H0) as [_ [Hr [Hdup _]]]. right. auto.
+      * apply in_app_or in H, H0. destruct H as [H|H]; destruct H0 as [H0|H0].
+        -- eauto.
+        -- exfalso. destruct (E6 b' H0 H2) as [_ [Hr [_ Hor]]].
+           destruct (L3 b H H1 eq_refl) as [Hlt|[Heq Hdup]]; [lia|].
+           destruct Hor as [Hor|Hor]; [lia|]. rewrite <- H3 in Hor. congruence.
+        -- exfalso. destruct (E6 b H H1) as [_ [Hr [_ Hor]]].
+           destruct (L3 b' H0 H2 eq_refl) as [Hlt|[Heq Hdup]]; [lia|].
+           destruct Hor as [Hor|Hor]; [lia|]. rewrite H3 in Hor. congruence.
+        -- destruct HB as [HB|[x HB]]; rewrite HB in *; [contradiction|].
+           destruct H as [H|[]], H0 as [H0|[]]. congruence.
+      * apply in_app_or in H. destruct H as [H|H].
+        -- destruct (L5 b H H0 eq_refl) as [Hlt|[Heq Hdup]]; [left; lia|].
+           destruct (Nat.eq_dec (round s') (round s)) as [Er|Er]; [right; split; [lia | apply E5; auto] | left; lia].
+        -- destruct (E7 b H H0) as [_ [Hr [Hr' [Hdup _]]]]. right. split; [lia | assumption].
+      * apply in_app_or in H, H0. destruct H as [H|H]; destruct H0 as [H0|H0].
+        -- eauto.
+        -- exfalso. destruct (E7 b' H0 H2) as [_ [Hr [_ [_ [Hnd _]]]]].
+           destruct (L5 b H H1 eq_refl) as [Hlt|[Heq Hdup]]; [lia|]. rewrite <- H3 in Hnd. congruence.
+        -- exfalso. destruct (E7 b H H1) as [_ [Hr [_ [_ [Hnd _]]]]].
+           destruct (L5 b' H0 H2 eq_refl) as [Hlt|[Heq Hdup]]; [lia|]. rewrite H3 in Hnd. congruence.
+        -- destruct HB as [HB|[x HB]]; rewrite HB in *; [contradiction|].
+           destruct H as [H|[]], H0 as [H0|[]]. congruence.
+      * apply in_app_or in H. destruct H as [H|H].
+        -- destruct (L7 b H H0) as [Hle Heq].
+           destruct E9 as [[c [Hc Hcty]]|[Hpr Hpv]]; [|rewrite Hpr, Hpv; auto].
+           destruct (E7 c Hc Hcty) as [_ [Hr [_ [_ [Hnd [Hpr Hpv]]]]]].
+           destruct (L5 b H H0 eq_refl) as [Hlt|[Heq' Hdup]].
+           ++ split; [lia|]. intro. lia.
+           ++ exfalso. rewrite Heq', <- Hr in Hdup. congruence.
+        -- destruct (E7 b H H0) as [_ [_ [_ [_ [_ [Hpr Hpv]]]]]]. split; [lia | auto].
+      * destruct E9 as [[c [Hc Hcty]]|[Hpr Hpv]]; [|lia].
+        destruct (E7 c Hc Hcty) as [_ [Hr [Hr' [_ [_ [Hpr _]]]]]]. lia.
+      * apply in_app_or in H. destruct H as [H|H].
+        -- specialize (L9 b H H0 eq_refl). lia.
+        -- destruct (E8 b H H0) as [_ [Hr _]]. lia.
+      * apply in_app_or in H, H0. destruct H as [H|H]; destruct H0 as [H0|H0].
+        -- eauto.
+        -- destruct (E8 b H0 H2) as [_ [_ [_ [Hpr Hpv]]]]. rewrite Hpr, Hpv. apply L7; assumption.
+        -- exfalso. destruct (E7 c H H1) as [_ [Hr _]]. specialize (L9 b H0 H2 eq_refl). lia.
+        -- exfalso. destruct HB as [HB|[x HB]]; rewrite HB in *; [contradiction|].
+           destruct H as [H|[]], H0 as [H0|[]]. congruence.
+Qed.
